@@ -125,6 +125,14 @@ type trigRec struct {
 	defs map[core.PubKey]core.DutyDefinition
 }
 
+// getRec is one GetDutyDefinition call (the read path the validator API uses) made by a query client.
+type getRec struct {
+	duty   core.Duty
+	t0, t1 time.Time
+	defs   map[core.PubKey]core.DutyDefinition
+	err    error
+}
+
 type world struct {
 	c  *kernel.Ctx
 	mu sync.Mutex // short critical sections only
@@ -158,6 +166,7 @@ type world struct {
 
 	ticks       []tickRec
 	trigs       []trigRec
+	gets        []getRec
 	fetches     []trigRec // fetch-only calls caused by head events (feature flags fetch_att_on_block*)
 	trims       []time.Time // reorg events delivered while sse_reorg_duties is enabled: resolved duties are dropped
 	ress        []resRec
@@ -791,6 +800,61 @@ func body(c *kernel.Ctx) {
 		})
 	}
 
+	// --- query clients: GetDutyDefinition is the second way a resolved duty's definition set leaves the scheduler
+	// (the validator API asks it for every submission). Clients ask for duties around the head slot, of derived and
+	// other types, at seeded instants - also while an epoch is being resolved, after a reorg dropped it, and after
+	// it was trimmed - and then treat the returned set as their own (overwrite and empty it).
+	for q, nq := 0, verifrt.Intn("cfg", 3); q < nq; q++ {
+		verifrt.Go(func() {
+			qTypes := append(append([]core.DutyType{}, derivedTypes...), core.DutyRandao, core.DutyPrepareAggregator, core.DutySyncMessage)
+			for time.Now().Before(w.faultEnd) {
+				verifrt.Sleep(w.slotDur * time.Duration(1+verifrt.Intn("w", 300)) / 100)
+				head := int(w.headSlot())
+				slot := head - int(w.spe) + verifrt.Intn("w", 3*int(w.spe))
+				if k := verifrt.Intn("w", 4); k == 0 {
+					slot = head
+				} else if k == 1 {
+					slot = head + 1
+				}
+				if slot < 0 {
+					slot = 0
+				}
+				ti := verifrt.Intn("w", len(qTypes)+4)
+				if ti >= len(qTypes) {
+					ti %= len(derivedTypes)
+				}
+				duty := core.Duty{Slot: uint64(slot), Type: qTypes[ti]}
+				qctx, qcancel := context.WithTimeout(ctx, w.slotDur*time.Duration(1+verifrt.Intn("w", 30))/10)
+				rec := getRec{duty: duty, t0: time.Now(), defs: map[core.PubKey]core.DutyDefinition{}}
+				set, err := sched.GetDutyDefinition(qctx, duty)
+				qcancel()
+				rec.t1, rec.err = time.Now(), err
+				var pks []core.PubKey
+				for pk := range set {
+					pks = append(pks, pk)
+				}
+				slices.Sort(pks)
+				for _, pk := range pks {
+					cl, cerr := set[pk].Clone()
+					if cerr != nil {
+						cl = set[pk]
+					}
+					rec.defs[pk] = cl
+					if sd, ok := set[pk].(core.SyncCommitteeDefinition); ok {
+						for i := range sd.ValidatorSyncCommitteeIndices {
+							sd.ValidatorSyncCommitteeIndices[i] = 7777
+						}
+					}
+					delete(set, pk)
+				}
+				w.mu.Lock()
+				w.gets = append(w.gets, rec)
+				w.mu.Unlock()
+				verifrt.Note("GET %d/%s -> %d defs err=%v (took %v)", duty.Slot, duty.Type, len(rec.defs), err != nil, rec.t1.Sub(rec.t0))
+			}
+		})
+	}
+
 	var runErr error
 	running := true
 	verifrt.GoNode("sched", func() {
@@ -1027,6 +1091,71 @@ func (w *world) check(end time.Time) {
 			default:
 				if kind, eq := sameDef(got, exp[pk]); !kind || !eq {
 					c.Violate("C15", "definition-set", "fetch-only/altered-definition", "the early fetch for duty %s carries for %s the definition %s, the beacon node's assignment is %s", where(d), v.name, defStr(got), defStr(exp[pk]))
+				}
+			}
+		}
+	}
+
+	// (O2'') what GetDutyDefinition hands out is the beacon's assignment to active cluster validators, unaltered
+	for _, g := range w.gets {
+		d := g.duty
+		if g.err != nil {
+			switch {
+			case errors.Is(g.err, core.ErrNotFound):
+				verifrt.Probe("get-definition:not-found")
+				// a duty that had been triggered is still there unless a reorg dropped the epoch's duties (and an
+				// epoch that was trimmed is refused with another error)
+				for _, r := range trigBy[d] {
+					if len(r.defs) == 0 || !r.t.Before(g.t0) {
+						continue
+					}
+					dropped := false
+					for _, te := range w.trims {
+						if !te.Before(r.t.Add(-w.slotDur*3)) && !te.After(g.t1) {
+							dropped = true
+						}
+					}
+					if !dropped {
+						c.Violate("C15", "definition-set", "get-definition/not-found-after-trigger/"+d.Type.String(), "GetDutyDefinition(%s) called at t=%v answered 'not found' although the duty had been triggered at t=%v with %d definitions and no reorg dropped the epoch in between", where(d), w.rel(g.t0), w.rel(r.t), len(r.defs))
+					}
+				}
+			case errors.Is(g.err, context.DeadlineExceeded) || errors.Is(g.err, context.Canceled):
+				verifrt.Probe("get-definition:context-ended-while-waiting")
+			default:
+				verifrt.Probe("get-definition:refused")
+			}
+			continue
+		}
+		verifrt.Probe("get-definition:ok")
+		if g.t1.After(g.t0) {
+			verifrt.Probe("get-definition:ok-after-waiting-for-resolution")
+		}
+		if _, derived := offsetOf(d.Type, w.slotDur); !derived {
+			c.Violate("C15", "definition-set", "get-definition/underived-duty-type/"+d.Type.String(), "GetDutyDefinition(%s) returned %d definitions; the scheduler derives only proposer, attester, aggregator and sync contribution duties from beacon assignments", where(d), len(g.defs))
+			continue
+		}
+		if len(g.defs) == 0 {
+			c.Violate("C15", "definition-set", "get-definition/empty-set/"+d.Type.String(), "GetDutyDefinition(%s) succeeded with an empty definition set", where(d))
+		}
+		exp := w.expected(d.Type, d.Slot)
+		pks := make([]core.PubKey, 0, len(g.defs))
+		for pk := range g.defs {
+			pks = append(pks, pk)
+		}
+		slices.Sort(pks)
+		for _, pk := range pks {
+			got := g.defs[pk]
+			v := w.byPK[pk]
+			switch {
+			case v == nil || !v.cluster:
+				c.Violate("C15", "definition-set", "get-definition/non-cluster-validator/"+d.Type.String(), "GetDutyDefinition(%s) returned a definition for a validator outside the cluster: %s", where(d), defStr(got))
+			case !v.activeIn(d.Slot / w.spe):
+				c.Violate("C15", "definition-set", "get-definition/inactive-validator/"+d.Type.String(), "GetDutyDefinition(%s) returned a definition for %s (v%d), which is not active in epoch %d (known=%v, active in epochs [%d,%d)): %s", where(d), v.name, v.vidx, d.Slot/w.spe, v.known, int64(v.act), int64(v.exit), defStr(got))
+			case exp[pk] == nil:
+				c.Violate("C15", "definition-set", "get-definition/unassigned-slot/"+d.Type.String(), "GetDutyDefinition(%s) returned a definition for %s (v%d), to which the beacon node assigned no such duty in that slot: %s", where(d), v.name, v.vidx, defStr(got))
+			default:
+				if kind, eq := sameDef(got, exp[pk]); !kind || !eq {
+					c.Violate("C15", "definition-set", "get-definition/altered-definition/"+d.Type.String(), "GetDutyDefinition(%s) returned for %s the definition %s, the beacon node's assignment is %s", where(d), v.name, defStr(got), defStr(exp[pk]))
 				}
 			}
 		}
